@@ -233,6 +233,14 @@ def run_scan(rec, sh, tier, seed):
                     continue
                 n_hits += len(ref)
                 n_last += sum(1 for k in ref if k[3] == L)
+                # other accepted input types describe the same set: numpy array, int8 tensor, float64 tensor
+                for alt_name, Xalt in (("numpy", X.numpy()), ("int8", X.to(torch.int8)), ("float64", X.double())):
+                    if (thr, bs) != (thrs[0], 0.1) and alt_name != "numpy":
+                        continue
+                    st, da = call(fimo, md, Xalt, bin_size=bs, threshold=thr, reverse_complement=rc)
+                    ga, dupa = df_to_hits(da) if st == "ok" else (None, 0)
+                    if ga is None or set(ga) != set(got):
+                        rec.violation("fimo:input_type_changes_hits:" + alt_name, case, observed=da if st != "ok" else len(ga))
                 # dim=1 describes the same set
                 st, d1 = call(fimo, md, X, bin_size=bs, threshold=thr, reverse_complement=rc, dim=1)
                 if st != "ok":
